@@ -119,8 +119,16 @@ pub fn big_pair(n1: usize, n2: usize, m: usize, seed: u16, kinds: u8) -> (M, M) 
         }
     };
     let s = seed as usize;
-    let a: Vec<M> = (0..n1).map(|i| elem((i * 7 + s) % m)).collect();
-    let b: Vec<M> = (0..n2).map(|i| elem((i * 13 + s / 3 + m / 2) % m)).collect();
+    let mut a: Vec<M> = (0..n1).map(|i| elem((i * 7 + s) % m)).collect();
+    let mut b: Vec<M> = (0..n2).map(|i| elem((i * 13 + s / 3 + m / 2) % m)).collect();
+    if kinds >= 254 && n1 <= 300 && n2 <= 300 {
+        // elements whose encoded length needs more than 24 bits, equal in length and different
+        // in content, in the middle of each list
+        let big = |c: &str| M::Str(c.repeat((1 << 24) + 3));
+        a.insert(a.len() / 2, big("x"));
+        a.insert(a.len() / 3, big("y"));
+        b.insert(b.len() / 2, if seed % 2 == 0 { big("y") } else { big("z") });
+    }
     (M::Arr(a), M::Arr(b))
 }
 
@@ -168,6 +176,6 @@ pub fn arb_pair() -> BoxedStrategy<(M, M)> {
 
 fn run(ctx: &mut Ctx) {
     let cases = ctx.share(ctx.tier.pick(600_000, 6_000_000));
-    let level = ctx.tier.pick(1, 2);
+    let level = 2;
     run_strategy(ctx, "C13", "pairs", cases, arb_pair_with_big(level), check);
 }
